@@ -45,18 +45,19 @@ type Fault struct {
 
 // TreeScript describes one run of the tree world.
 type TreeScript struct {
-	Prop       string  `json:"prop"`
-	CountJudge bool    `json:"count_judge,omitempty"` // C16: tasks use Insert/Delete/lookups/GetChangeCount only and the counts are judged
-	Reopen     bool    `json:"reopen,omitempty"`      // C16 judged saves: the tasks work on a trie object opened on the prepared state; saves go to copies of that state, some with deletes
-	SaveJudge  bool    `json:"save_judge,omitempty"`  // C16: tasks use Insert/Delete/lookups/saves only; every save goes to a store of its own and is judged
-	Scribble   bool    `json:"scribble,omitempty"`    // the harness edits every value a lookup returned, after judging it
-	Store      string  `json:"store"`                 // mem | lvlmem | lvlp | p | lvlpp
-	Cache      string  `json:"cache"`                 // own | shared
-	Observe    string  `json:"observe,omitempty"`     // "" = harness reads through the trie under test; "fresh" = through throw-away trie objects; "clone" = through util.CloneMPT
-	IterAll    bool    `json:"iterall,omitempty"`     // content reads alternate between Iterate(values), Iterate(all node types) and IterateFrom(root, all node types)
-	Ver        int64   `json:"ver"`
-	Faults     []Fault `json:"faults,omitempty"`
-	Ops        []Op    `json:"ops"`
+	Prop          string  `json:"prop"`
+	CountJudge    bool    `json:"count_judge,omitempty"`    // C16: tasks use Insert/Delete/lookups/GetChangeCount only and the counts are judged
+	Reopen        bool    `json:"reopen,omitempty"`         // C16 judged saves: the tasks work on a trie object opened on the prepared state; saves go to copies of that state, some with deletes
+	SaveJudge     bool    `json:"save_judge,omitempty"`     // C16: tasks use Insert/Delete/lookups/saves only; every save goes to a store of its own and is judged
+	ScribblePaths bool    `json:"scribble_paths,omitempty"` // with Scribble: also the path slice passed to Insert is overwritten after the call
+	Scribble      bool    `json:"scribble,omitempty"`       // the harness edits every value a lookup returned, after judging it
+	Store         string  `json:"store"`                    // mem | lvlmem | lvlp | p | lvlpp
+	Cache         string  `json:"cache"`                    // own | shared
+	Observe       string  `json:"observe,omitempty"`        // "" = harness reads through the trie under test; "fresh" = through throw-away trie objects; "clone" = through util.CloneMPT
+	IterAll       bool    `json:"iterall,omitempty"`        // content reads alternate between Iterate(values), Iterate(all node types) and IterateFrom(root, all node types)
+	Ver           int64   `json:"ver"`
+	Faults        []Fault `json:"faults,omitempty"`
+	Ops           []Op    `json:"ops"`
 	// C16: tasks and schedule
 	Tasks     [][]Op `json:"tasks,omitempty"`
 	Schedule  []int  `json:"schedule,omitempty"`
